@@ -261,7 +261,8 @@ total, `p = c / Σc`, marginals `p_x = p.sum(0)`, `p_y = p.sum(1)`, `p_{x+y}`, `
 * covariance² `(Σ i j p(i,j) − μ_x μ_y)² ≤ var_x · var_y` (weighted Cauchy–Schwarz, no square roots), hence with any
   positive square roots `s_x² = var_x`, `s_y² = var_y` the correlation `cov/(s_x s_y)` lies in `[−1, 1]` (where a
   variance vanishes the textbook formula is 0/0 and the check does not compare f3);
-* sum variance `Σ_k (k − f6)² p_{x+y}(k) ≥ 0` and difference variance `≥ 0`.
+* sum variance `Σ_k (k − f6)² p_{x+y}(k) ≥ 0`, difference variance `≥ 0`, and the alternative difference variance of
+  the option `use_x_minus_y_variance`, `VAR[|x−y|] = Σ k² p_{x−y}(k) − (Σ k p_{x−y}(k))² ≥ 0`.
 The entropies f8, f9, f11 and the information measures f12, f13 are the textbook `−Σ q log₂ q` formulas of the model at
 `Float` (`entropy`); no identity about them is proved. -/
 theorem C19_haralick_features_def :
@@ -305,7 +306,8 @@ theorem C19_haralick_features_def :
       (∀ sx sy : α, sx ^ 2 = vx → sy ^ 2 = vy → 0 < sx → 0 < sy →
         -1 ≤ cov / (sx * sy) ∧ cov / (sx * sy) ≤ 1) ∧
       0 ≤ sumVarG 0 Nat.cast m (pplusG 0 m P) f6 ∧
-      0 ≤ diffVarG 0 Nat.cast m (pminusG 0 m P)) := by
+      0 ≤ diffVarG 0 Nat.cast m (pminusG 0 m P) ∧
+      0 ≤ varG 0 Nat.cast (pminusG 0 m P) m) := by
   refine ⟨fun m c => ⟨rfl, rfl, rfl, rfl, rfl, rfl, rfl⟩, ?_⟩
   intro α _ _ _ m c hlen hT P px py ux uy vx vy cov f6
   have h0 : ∀ i j, 0 ≤ P i j := fun i j => matAt_nonneg m c i j
@@ -313,7 +315,7 @@ theorem C19_haralick_features_def :
   exact ⟨contrast_eq m P, sumAvg_eq m P, sumAvg_eq_means m P, idm_bounds m P h0 h1, var_nonneg m P h0 h1,
     var_centered m P h1, sumVar_eq m P f6, sumVar_code_form m P h1, cov_sq_le m P h0 h1,
     fun sx sy hx hy px' py' => corr_bounds cov vx vy sx sy (cov_sq_le m P h0 h1) hx hy px' py',
-    sumVar_nonneg m P h0 f6, diffVar_nonneg m _⟩
+    sumVar_nonneg m P h0 f6, diffVar_nonneg m _, diffVarAlt_nonneg m P h0 h1⟩
 
 /-- **C19-T2 on the data arrays (what `f[::-1, ::-1, …]` and `swapaxes(0,1)` do to the driver's input).**
 `C19_cooc_rot180` / `C19_cooc_transpose` speak about index maps; this theorem is about the arrays the model receives.
